@@ -48,6 +48,7 @@ class Gen:
         self.json_safe = False
         self._forced = None
         self._reserved = None
+        self._kw_used = set()
         self.letter_suffixes = False   # type names ending in letters (the schema-repository checks)
         self.mapping_views = False     # maps now and then offered as read-only mapping views (validation / writing checks only)
         self.unknown_logical = True    # now and then an annotation no implementation knows ("x-custom"): to be ignored
@@ -60,6 +61,12 @@ class Gen:
     def fresh(self, prefix):
         self.counter += 1
         # names do not always end in a digit (file names are derived from them by the loader)
+        if self.letter_suffixes and self.r.random() < 0.06:
+            kw = [k for k in ("request", "error", "record", "enum", "fixed", "map", "array", "union") if k not in self._kw_used]
+            if kw:
+                k = self.r.choice(kw)
+                self._kw_used.add(k)
+                return k                   # a type may be called like a keyword of the schema language
         return "%s%d%s" % (prefix, self.counter, self.r.choice(["", "", "", "s", "a", "vc", "avsc"]) if self.letter_suffixes else "")
 
     def fresh_named(self, prefix, tns):
@@ -93,6 +100,7 @@ class Gen:
         self.open = []
         self.counter = 0
         self._reserved = None
+        self._kw_used = set()
         kinds = ["record"] * 5 + ["union", "array", "map", "enum", "fixed", "prim"]
         k = top or self.r.choice(kinds)
         if k == "record" and self.use_ns and self.r.random() < 0.05:
@@ -391,7 +399,9 @@ class Gen:
         if r.random() < 0.08:
             # primitives one of which promotes to an earlier one: the branch of the value's own type comes after a promotion target
             chain = r.choice([["bytes", "string"], ["string", "bytes"], ["double", "int"], ["long", "int"], ["double", "float", "long", "int"],
-                              ["float", "long"], ["double", "long"], ["double", "float"]])
+                              ["float", "long"], ["double", "long"], ["double", "float"],
+                              # ... and the other way round: the first conforming branch is decided at the range boundaries
+                              ["int", "long"], ["int", "double"], ["float", "double"], ["int", "long", "double"], ["long", "double"]])
             br = [{"k": "prim", "name": x} for x in chain]
             if r.random() < 0.5:
                 br.insert(r.randint(0, len(br)), {"k": "prim", "name": "null"})
